@@ -288,7 +288,7 @@ func TestC34_RaceWorkload(t *testing.T) {
 		}
 		if len(lockSigs) > 0 {
 			vk.Flush()
-			t.Fatalf("deadlock hazard - a goroutine re-acquires a reader/writer lock it already holds (blocks for ever once a writer queues in between): %s", strings.Join(lockSigs, "; "))
+			t.Fatalf("deadlock hazard - lock discipline violated (recursive read lock, read-to-write upgrade or two lock classes taken in opposite orders: blocks for ever once a writer queues in between): %s", strings.Join(lockSigs, "; "))
 		}
 		vk.Flush()
 		if len(unknown) > 0 {
@@ -589,7 +589,7 @@ func TestC34_RaceWorkload(t *testing.T) {
 		verifLockMu.Unlock()
 		if len(hazards) > 0 {
 			sort.Strings(hazards)
-			rt.Fatalf("deadlock hazard - a goroutine re-acquires a reader/writer lock it already holds (blocks for ever once a writer queues in between): %s\n%s\n%s", strings.Join(hazards, "; "), verifLockReports[hazards[0]], desc)
+			rt.Fatalf("deadlock hazard - lock discipline violated (recursive read lock, read-to-write upgrade or two lock classes taken in opposite orders: blocks for ever once a writer queues in between): %s\n%s\n%s", strings.Join(hazards, "; "), verifLockReports[hazards[0]], desc)
 		}
 		net.wg.Wait()
 		perNode := map[int]map[string]bool{}
